@@ -95,7 +95,13 @@ def check(run: Run) -> None:
             run.check(len(args) == 2 and not c.keywords, "C12.R3", va, stmt_of(c), "executor receives two positional arguments", f"executor receives {len(c.args)} positional and {len(c.keywords)} keyword arguments")
             if len(args) == 2:
                 a0 = args[0]
-                ok0 = a0[0] == "tvisit" and a0[1].endswith("remove_empty_metadata._cleaner") and a0[2] == ("attr", selfp, "_q_ast")
+                from ..lib import used_visitor
+
+                rem_fn = m.find_func("remove_empty_metadata", in_module="func_adl.ast.meta_data")
+                cleaner_cls = used_visitor(m, ctx, rem_fn, True)
+                rem_rt = strip_sites(ctx.analysis(rem_fn).return_term())
+                whole = rem_rt == ("tvisit", cleaner_cls.qual, ("param", rem_fn.pos_params[0]))
+                ok0 = whole and a0[0] == "tvisit" and a0[1] == cleaner_cls.qual and a0[2] == ("attr", selfp, "_q_ast")
                 run.check(ok0, "C12.R3", va, stmt_of(c), "first argument is remove_empty_metadata(self._q_ast)", f"executor receives {show(a0)[:140]} instead of remove_empty_metadata(self._q_ast): a different / stale query is executed", term=show(a0))
                 run.check(args[1] == ("param", "title"), "C12.R3", va, stmt_of(c), "second argument is the title parameter", f"title argument is {show(args[1])[:80]}")
         # returns
@@ -137,9 +143,53 @@ def check(run: Run) -> None:
                 ok_walk = False
     run.check(ok_walk, "C12.R4", ge, ge.node, "default executor is the attribute of a node on the args[0] chain of self._q_ast", f"_get_executor returns {show(rt)[:160]}: the executor is not the one attached to this stream's root", term=show(rt))
     # the walk stops at the first node carrying the attribute
-    loops = [n for n in own_nodes(ge) if isinstance(n, ast.While)]
-    ok_stop = any(_is_not_hasattr(w.test, exec_attr) for w in loops)
-    run.check(ok_stop, "C12.R4", ge, loops[0] if loops else ge.node, "walk stops at the first node that has the executor attribute", "the args[0] walk does not stop at the first node carrying the executor attribute")
+    from ..lib import unit
+
+    def _is_exec_name(a1) -> bool:
+        return (isinstance(a1, ast.Name) and a1.id == "executor_attr_name") or (isinstance(a1, ast.Constant) and a1.value == exec_attr)
+
+    def _known_holder(g, site, x_expr) -> bool:
+        """at `site` of g the fact hasattr(<x_expr>, executor attribute) holds"""
+        ga = ctx.analysis(g)
+        if not ga.cfg.has_node(x_expr):
+            return False
+        xt = strip_sites(ga.term_of(x_expr))
+        for a, pol in Facts(ga, site).atoms:
+            if pol and isinstance(a, ast.Call) and isinstance(a.func, ast.Name) and a.func.id == "hasattr" and len(a.args) == 2 and _is_exec_name(a.args[1]):
+                try:
+                    if strip_sites(ga.term_of(a.args[0])) == xt:
+                        return True
+                except AnalysisError:
+                    pass
+        return False
+
+    ge_unit = unit(m, ge)
+    reads = []
+    for g in ge_unit:
+        for c in calls_in(g):
+            if isinstance(c.func, ast.Name) and c.func.id == "getattr" and len(c.args) >= 2 and _is_exec_name(c.args[1]):
+                reads.append((g, c))
+    ok_stop = bool(reads)
+    for g, c in reads:
+        x = c.args[0]
+        good = _known_holder(g, c, x)
+        if not good:
+            # the holder is the result of a helper of the unit, each of whose returns is a known holder
+            ga = ctx.analysis(g)
+            src = x
+            if isinstance(x, ast.Name):
+                defs = [n for n in own_nodes(g) if isinstance(n, ast.Assign) and len(n.targets) == 1 and isinstance(n.targets[0], ast.Name) and n.targets[0].id == x.id]
+                src = defs[0].value if len(defs) == 1 else x
+            if isinstance(src, ast.Call) and isinstance(src.func, (ast.Name, ast.Attribute)):
+                nm = src.func.id if isinstance(src.func, ast.Name) else src.func.attr
+                hs = [h for h in ge_unit if h.name == nm and h is not g]
+                if len(hs) == 1:
+                    h = hs[0]
+                    rets = [n for n in own_nodes(h) if isinstance(n, ast.Return) and n.value is not None]
+                    good = bool(rets) and all(_known_holder(h, r, r.value) for r in rets)
+        ok_stop = ok_stop and good
+    loops = [n for g in ge_unit for n in own_nodes(g) if isinstance(n, ast.While)]
+    run.check(ok_stop, "C12.R4", ge, loops[0] if loops and loops[0] in set(own_nodes(ge)) else ge.node, "walk stops at the first node that has the executor attribute", "the args[0] walk does not stop at the first node carrying the executor attribute")
 
     ed = m.find_class("EventDataset", in_module="func_adl.event_dataset")
     init = ed.methods.get("__init__")
@@ -227,7 +277,8 @@ def check(run: Run) -> None:
     ff = ctx.analysis(fe)
     for s, n in ff.returns():
         fx = Facts(ff, s)
-        ok = any(isinstance(a, ast.Compare) and isinstance(a.ops[0], (ast.Is, ast.IsNot)) and isinstance(a.comparators[0], ast.Constant) and a.comparators[0].value is None and ((isinstance(a.ops[0], ast.Is) and not pol) or (isinstance(a.ops[0], ast.IsNot) and pol)) and isinstance(a.left, ast.Attribute) and a.left.attr == "ds" for a, pol in fx.atoms)
+        rt_ = strip_sites(ff.term_of(s.value, n)) if s.value is not None else ("const", None)
+        ok = rt_[0] == "attr" and rt_[2] == "ds" and fx.compare_const(rt_, [ast.IsNot], None)
         run.check(ok, "C12.R6", fe, s, "find_EventDataset raises when no root was found", "find_EventDataset may return None when the query has no root")
     visits = [c for c in calls_in(fe) if isinstance(c.func, ast.Attribute) and c.func.attr == "visit" and c.args and strip_sites(ff.term_of(c.args[0])) == ("param", fe.pos_params[0])]
     run.check(len(visits) == 1, "C12.R6", fe, fe.node, "the finder visits the whole query", "the finder is not applied to the query argument")
